@@ -1,5 +1,6 @@
 CONSTANT Merge = "copy"
 CONSTANT MaxOps = 3
+CONSTANT NPairs = 6
 CONSTANT NTrees = 2
 CONSTANT NKw = 3
 CONSTANT WithPut = TRUE
